@@ -10,6 +10,7 @@ type Finding struct {
 	Prop string
 	Sig  string
 	What string
+	Op   int // index of the call the finding is attributed to (-1: whole trace)
 }
 
 // Classes are the non-trivial event classes observed in one trace (coverage).
@@ -58,9 +59,10 @@ type Which struct{ C01, C02, C03, C10, C19 bool }
 func Check(tr *Trace, w Which) ([]Finding, Classes) {
 	var fs []Finding
 	var cl Classes
+	curOp := -1
 	add := func(prop, sig, format string, a ...any) {
 		if len(fs) < 8 {
-			fs = append(fs, Finding{prop, sig, fmt.Sprintf(format, a...)})
+			fs = append(fs, Finding{prop, sig, fmt.Sprintf(format, a...), curOp})
 		}
 	}
 	h := tr.H
@@ -96,6 +98,7 @@ func Check(tr *Trace, w Which) ([]Finding, Classes) {
 		op := &h.Ops[k]
 		st := &tr.Steps[k]
 		isPush := false
+		curOp = k
 		// --- the call's own effect on the reference buffer (before its callbacks) ---
 		switch op.Kind {
 		case OpPushMsg, OpPushRaw:
